@@ -148,7 +148,7 @@ def step (toks : List String) : String :=
   | "tree" :: _ =>
     if t.size < 13 then "bad-op" else
     let n := nat t[1]!
-    if t.size < 13 + 4*n + 1 then "bad-op" else
+    if t.size < 13 + 4*n then "bad-op" else
     let g := fl t[6]!
     let gh := ghostList (nat t[2]! != 0) ⟨fl t[9]!, fl t[10]!, fl t[11]!⟩ (nat t[3]!) (nat t[4]!) (nat t[5]!)
     let nroots := nat t[12 + 4*n]!
